@@ -23,7 +23,7 @@ CONFIG = {
             "plus random trees with pairs up to depth 5 and random handle-addressed op lists up to 14 ops; "
             "non-trivial = at least one Close is issued; distinct = distinct op line",
     "trusted_base": COMMON_TB + ["model SA.Model.Wrappers hand-written; tied by per-op comparison of return values and per-resource close counts",
-                                 "fact c19PairClosedAnd read from ReadWriteCloser.Closed() by go/extract/x_c19.go"],
+                                 "fact c19PairClosedAnd: truth table of ReadWriteCloser.Closed() over its two halves, evaluated by the interpreter in go/extract/x_c19.go"],
     "assumptions": ["calls on the wrappers of one composition are sequential",
                     "resources under one composition are distinct objects and are closed only through the wrappers"],
 }
